@@ -18,6 +18,7 @@ def run(ctx):
                        "(harness/render.go, own escapers)", "exhaustive over the option sets written in Grammar.tla, not over all values"]
     parts = g.gen_statements(ctx, "selectq" if ctx.quick else "select")
     parts.append(("spell", g.gen_spellings(ctx, comments=False)))
+    parts.append(("deep", g.gen_deep(ctx, 6000 if ctx.quick else 60000, 4 if ctx.quick else 5)))
     for name, cf in parts:
         of = ctx.path("obs_%s.ndjson" % name)
         ctx.drive("c01", cf, of)
